@@ -251,7 +251,7 @@ void *a_vec_push_back(a_vec *ctx)
 
 void *a_vec_remove(a_vec *ctx, a_size idx)
 {
-    if (idx + 1 < ctx->num_)
+    if (ctx->num_ > 1 && idx < ctx->num_ - 1)
     {
         a_byte *const p = (a_byte *)ctx->ptr_ + ctx->siz_ * idx;
         a_byte *const q = p + ctx->siz_;
